@@ -628,7 +628,9 @@ where
         //   error!("Setting waker for {:?}", self.simple_datareader.topic().name());
         // }
         // // DEBUG
+        verif_yield!("stream:poll:after-first-take");
         self.simple_datareader.set_waker(Some(cx.waker().clone()));
+        verif_yield!("stream:poll:after-set-waker");
         match self
           .simple_datareader
           .try_take_one_with(self.decoder.clone())
